@@ -391,6 +391,9 @@ class C15(Check):
         for h in G.boundary_histories():
             hist.append(('boundary', h))
         only = os.environ.get('C15_ONLY')           # development aid: one phase only
+        if only == 'calls':
+            ctx.phase(self.corr_calls, ctx, c, ctx.sub_rng('c15-calls'))
+            return
         if only == 'world':
             ctx.phase(self.run_world, ctx, c, [('world-boundary', h) for h in G.world_boundary_histories()],
                       ctx.sub_rng('c15-world'), generate=ctx.n(300, 8000))
@@ -399,6 +402,7 @@ class C15(Check):
         ctx.phase(self.run_world, ctx, c, [('world-boundary', h) for h in G.world_boundary_histories()],
                   ctx.sub_rng('c15-world'), generate=ctx.n(300, 8000))
         ctx.phase(self.corr_detached, ctx, c, rng)
+        ctx.phase(self.corr_calls, ctx, c, ctx.sub_rng('c15-calls'))
         ctx.phase(self.oracle_logmode, ctx, c, ctx.sub_rng('c15-logmode'))
         ctx.phase(self.oracle_media_insert, ctx, c, ctx.sub_rng('c15-media'))
         ctx.phase(self.oracle_comment_after_prefix, ctx, c, ctx.sub_rng('c15-comment'))
@@ -777,6 +781,55 @@ class C15(Check):
                     ctx.violate('a comment between a namespace prefix and the name does not change what the name denotes '
                                 '(an accepted selector has the same items as without the comment)',
                                 {'selector': commented, 'namespaces': d}, {'with_comment': b, 'without': a})
+        finally:
+            c.log.raiseExceptions = old
+
+    # -- New.append call by call: comments after a prefix / in front (Model/NsCalls.lean) ----------------
+    def corr_calls(self, ctx, c, rng):
+        COMMENT = '/*c*/'
+        lines, cases = [], []
+        for _ in range(ctx.n(600, 15000)):
+            d = G.gen_dict(rng)
+            sel = G.gen_selector(rng, [p for p in d if p] + (['zz'] if rng.random() < 0.15 else []), bad=0.01)
+            words, text = [], ''
+            if rng.random() < 0.2:
+                words.append('c:' + enc(COMMENT))
+                text += COMMENT
+            for it in sel:
+                if it[0] == 'q':
+                    ps = it[2]
+                    if ps != 'N':
+                        words.append('p' + G.ps_word(ps))
+                        text += G.render_ps(ps)
+                        # (`p|/**/*` is refused by the selector grammar: universal is one token with its prefix)
+                        if it[1] != 'u' and rng.random() < 0.6:
+                            words.append('c:' + enc(COMMENT))
+                            text += COMMENT
+                    words.append('n:%s:%s' % (it[1], enc(it[3])))
+                    text += it[3]
+                elif it[0] == 'o':
+                    words.append('o:%s:%s' % (enc(it[1]), enc(it[2])))
+                    text += it[3]
+                else:
+                    words.append('x')
+                    text += '!'
+            lines.append('calls %s %s' % (G.dict_word(d), '+'.join(words)))
+            cases.append((d, text))
+        out = ctx.driver(lines) if ctx.model_ok else [None] * len(lines)
+        old = c.log.raiseExceptions
+        c.log.raiseExceptions = True
+        try:
+            for (d, text), m in zip(cases, out):
+                try:
+                    s = c.css.Selector((text, dict(d)))
+                    got = 'ok ' + '+'.join('c:' + enc(getattr(i.value, 'cssText', i.value)) if i.type == 'COMMENT' else canon_item(i)
+                                           for i in s.seq)
+                except xml.dom.DOMException as e:
+                    got = 'err:' + type(e).__name__
+                ctx.case(key=('calls', text, tuple(sorted(d.items()))), nontrivial='|/*' in text,
+                         kind='calls:' + got.split(' ')[0].split(':')[0], sample={'selector': text, 'namespaces': d, 'impl': got})
+                if m is not None and m != got:
+                    ctx.disagree('calls of New.append', {'selector': text, 'namespaces': d}, got, m)
         finally:
             c.log.raiseExceptions = old
 
